@@ -161,7 +161,7 @@ def edge_campaign(ctx, n):
         trials = [dict(ctx.replay['case']['trial'])]; n = 0
     for i in range(n):
         other = 0.0 if i % 2 == 0 else rng.choice([0.1, 0.25, 0.4])
-        trials.append({'variant': dict(edgefeed.REAL), 'evs': edgefeed.gen_schedule(rng, other), 'progress': True, 'tail': None})
+        trials.append({'variant': dict(edgefeed.REAL, xcid=rng.choice(['X', 'X', 'R2', 'Rx', 'RR', 'r'])), 'evs': edgefeed.gen_schedule(rng, other), 'progress': True, 'tail': None})
     obs = [edgefeed.run_impl(t) for t in trials]
     model = ctx.driver.batch([edgefeed.model_request(t) for t in trials]) if ctx.driver and trials else None
     stats = {'trials': len(trials), 'with_second_client': 0, 'late_or_never_connect': 0, 'never_connect': 0, 'frames_returned': 0, 'hellos_lost': 0,
@@ -321,7 +321,7 @@ def run(ctx):
     seeds = [c.get('net_seed', 0) for c in ctx.corpus if 'topo' in c]
     if ctx.replay and ctx.replay.get('case', {}).get('topo'):
         topos = [ctx.replay['case']['topo']]; seeds = [ctx.replay['case'].get('net_seed', 0)]; n = 0
-    if ctx.replay and ctx.replay.get('case', {}).get('feed') in ('recvmulti', 'edge', 'netchain'):
+    if ctx.replay and ctx.replay.get('case', {}).get('feed') in ('recvmulti', 'edge', 'netchain', 'send'):
         topos, seeds, n = [], [], 0
     for _ in range(n):
         topos.append(pipeline.gen_topology(rng, c03=True)); seeds.append(rng.randrange(10**9))
@@ -350,6 +350,9 @@ def run(ctx):
             else: res.traces_validated += 1
     # stage B: the edge refinement on the closed pair with the PUB/SUB slow joiner
     edge_campaign(ctx, 8000 if ctx.thorough else (2500 if ctx.escalate else 800))
+    # required-output gate on the adversarial request feed (client names that are prefixes of one another, required outputs that never ask): oracle
+    # published-before-required-asked + OF.Send.send0 call by call
+    protocol.send_campaign(ctx, 'C03', 2000 if ctx.thorough else 250, ['sync', 'sync', 'adv'])
     # multi-topic join: the statement of C03_join_complete_multi on the real receiver
     multi_join_campaign(ctx, 4000 if ctx.thorough else (1200 if ctx.escalate else 400))
     # process_frames / MQ.send shortcut vs OF.Loop
